@@ -4,7 +4,7 @@
      1 a  2 b  3 A  4 B  5 _  6 0  7 space  8 -  9 .  10 e-acute  11 E-acute  12 invalid byte FF
      13 CR  14 LF  15 NUL
    User AST:
-     [k |-> "lit", c]  [k |-> "cls", s, neg]  [k |-> "wcls", neg]  [k |-> "dot"]
+     [k |-> "lit", c]  [k |-> "cls", s, neg]  [k |-> "wcls", neg]  [k |-> "dot"]  [k |-> "pcls", up]
      [k |-> "cat", a, b]  [k |-> "alt", a, b]  [k |-> "rep", a, min, max, g]
      [k |-> "grp", a, cap]  [k |-> "look", l]   l \in {"bol","eol","wb","nwb","bot"}
    opts: [ci, smart, word, line, crlf, nul, inv, dotall \in BOOLEAN]                                  *)
@@ -24,6 +24,7 @@ ULit(c) == [k |-> "lit", c |-> c]
 UCls(s, neg) == [k |-> "cls", s |-> s, neg |-> neg]
 UWCls(neg) == [k |-> "wcls", neg |-> neg]
 UDot == [k |-> "dot"]
+UPosix(up) == [k |-> "pcls", up |-> up]      \* [[:upper:]] / [[:lower:]]: ASCII letters of one case; NOT a literal for smart case
 UCat(a, b) == [k |-> "cat", a |-> a, b |-> b]
 UAlt(a, b) == [k |-> "alt", a |-> a, b |-> b]
 URep(a, mn, mx, g) == [k |-> "rep", a |-> a, min |-> mn, max |-> mx, g |-> g]
@@ -50,6 +51,7 @@ Lower(u, ci, o, g) ==
     [] u.k = "cls" -> LET s1 == IF ci THEN FoldSet(u.s) ELSE u.s IN
                       << Set(IF u.neg THEN ValidSyms \ s1 ELSE s1), g >>
     [] u.k = "wcls" -> << Set(IF u.neg THEN ValidSyms \ WordSyms ELSE WordSyms), g >>
+    [] u.k = "pcls" -> << Set(IF ci THEN {SA, SB, SUA, SUB} ELSE IF u.up THEN {SUA, SUB} ELSE {SA, SB}), g >>
     [] u.k = "dot" -> << Set(IF o.dotall THEN ValidSyms ELSE ValidSyms \ ({SLF} \cup (IF o.crlf THEN {SCR} ELSE {}))), g >>
     [] u.k = "cat" -> LET x == Lower(u.a, ci, o, g) y == Lower(u.b, ci, o, x[2]) IN << Cat(x[1], y[1]), y[2] >>
     [] u.k = "alt" -> LET x == Lower(u.a, ci, o, g) y == Lower(u.b, ci, o, x[2]) IN << Alt(x[1], y[1]), y[2] >>
